@@ -46,15 +46,17 @@ var c12Behaviours = []string{"reply", "errreply", "senderr", "silence", "dup", "
 // ---------------------------------------------------------------- case spec
 
 type c12ActionSpec struct {
-	DelayMs int    `json:"d"`             // measured from the SendFunc invocation
-	Key     string `json:"key"`           // "own" | "cmd:<j>" | "unknown"
-	Sender  string `json:"snd"`           // "own" | "pool:<k>" | "alien-agent" | "alien"
-	Err     bool   `json:"err,omitempty"` // reply carries an error string
+	DelayMs int    `json:"d"`                 // measured from the SendFunc invocation
+	Key     string `json:"key"`               // "own" | "cmd:<j>" | "unknown"
+	Sender  string `json:"snd"`               // "own" | "pool:<k>" | "alien-agent" | "alien"
+	Err     bool   `json:"err,omitempty"`     // reply carries an error string
+	ErrText string `json:"errtext,omitempty"` // error text shared byte for byte with other targets of the command (else unique)
 }
 
 type c12TargetSpec struct {
 	T       int             `json:"t"` // index in the target pool
 	Beh     string          `json:"b"`
+	Shared  string          `json:"shared,omitempty"` // failure text shared with other targets of this command
 	Actions []c12ActionSpec `json:"a,omitempty"`
 }
 
@@ -109,6 +111,45 @@ func c12GenCase(r *rand.Rand, idx int64) *c12CaseSpec {
 			}
 			c.Targets = append(c.Targets, c12TargetSpec{T: t, Beh: beh})
 		}
+		// a share of the commands has 2-4 targets failing with BYTE-IDENTICAL error text: the same
+		// executor error, the same send error, one group of each, or one text across both kinds
+		// (the reply objects / targets stay unique, only the text is shared)
+		if n >= 2 && r.Intn(100) < 40 {
+			j := len(cs.Cmds)
+			execText := fmt.Sprintf("executor: transition failed, device went to ERROR (c12 shared text, command %d)", j)
+			sendText := c12SendErrTag + fmt.Sprintf("shared-cmd%d (transport refused)", j)
+			order := r.Perm(n)
+			k := 2 + r.Intn(3)
+			if k > n {
+				k = n
+			}
+			mode := r.Intn(4)
+			if mode == 2 && n < 4 {
+				mode = r.Intn(2)
+			}
+			set := func(pos int, beh, text string) {
+				c.Targets[order[pos]].Beh, c.Targets[order[pos]].Shared = beh, text
+			}
+			switch mode {
+			case 0: // same executor error
+				for x := 0; x < k; x++ {
+					set(x, "errreply", execText)
+				}
+			case 1: // same send error
+				for x := 0; x < k; x++ {
+					set(x, "senderr", sendText)
+				}
+			case 2: // one group of each
+				set(0, "errreply", execText)
+				set(1, "errreply", execText)
+				set(2, "senderr", sendText)
+				set(3, "senderr", sendText)
+			default: // executor error and send error with one and the same text
+				for x := 0; x < k; x++ {
+					set(x, []string{"errreply", "senderr"}[x%2], sendText)
+				}
+			}
+		}
 		cs.Cmds = append(cs.Cmds, c)
 	}
 	// second pass: concrete reply actions (foreign ids need the other commands)
@@ -127,7 +168,9 @@ func c12GenCase(r *rand.Rand, idx int64) *c12CaseSpec {
 			case "reply":
 				ts.Actions = []c12ActionSpec{own(inTime(), false)}
 			case "errreply":
-				ts.Actions = []c12ActionSpec{own(inTime(), true)}
+				a := own(inTime(), true)
+				a.ErrText = ts.Shared
+				ts.Actions = []c12ActionSpec{a}
 			case "senderr":
 				if r.Intn(3) == 0 { // the message did get through although the send reported failure
 					ts.Actions = []c12ActionSpec{own(r.Intn(20), false)}
@@ -193,6 +236,7 @@ type c12TState struct {
 	sendSeq   int64
 	sendT     time.Time
 	sendNonce string // nonce carried by this target's send error, if its behaviour is senderr
+	sendText  string // full text of that send error
 }
 
 type c12EntrySnap struct {
@@ -235,6 +279,7 @@ type c12Reply struct {
 	originCmd, originT int
 	action             int
 	isErr              bool
+	errText            string // error text the reply was sent with
 	resp               cc.MesosCommandResponse
 	started, returned  bool
 	stuckSeen          bool
@@ -285,10 +330,10 @@ func c12NonceOf(r cc.MesosCommandResponse) string {
 	return ""
 }
 
-func c12MakeResp(like cc.MesosCommand, id xid.ID, nonce string, isErr bool, taskID string) cc.MesosCommandResponse {
+func c12MakeResp(like cc.MesosCommand, id xid.ID, nonce string, errText string, taskID string) cc.MesosCommandResponse {
 	var err error
-	if isErr {
-		err = errors.New("c12 task-side error nonce=" + nonce)
+	if errText != "" {
+		err = errors.New(errText)
 	}
 	switch v := like.(type) {
 	case *cc.MesosCommand_Transition:
@@ -378,8 +423,14 @@ func (cr *c12CaseRun) send(cmd cc.MesosCommand, rcv c12Target) error {
 	}
 	var sendErr error
 	if st.spec.Beh == "senderr" {
-		st.sendNonce = cr.newNonce("se")
-		sendErr = errors.New(c12SendErrTag + st.sendNonce + " (transport refused)")
+		if st.spec.Shared != "" {
+			st.sendText = st.spec.Shared // the same text for several targets of this command
+			st.sendNonce = strings.TrimSuffix(strings.TrimPrefix(st.sendText, c12SendErrTag), " (transport refused)")
+		} else {
+			st.sendNonce = cr.newNonce("se")
+			st.sendText = c12SendErrTag + st.sendNonce + " (transport refused)"
+		}
+		sendErr = errors.New(st.sendText)
 	}
 	var todo []*c12Reply
 	var delays []time.Duration
@@ -448,7 +499,13 @@ func (cr *c12CaseRun) send(cmd cc.MesosCommand, rcv c12Target) error {
 				rr.kind = "own"
 			}
 		}
-		rr.resp = c12MakeResp(like, rr.keyID, rr.nonce, a.Err, rr.keySender.TaskId.Value)
+		if a.Err {
+			rr.errText = "c12 task-side error nonce=" + rr.nonce
+			if a.ErrText != "" {
+				rr.errText = a.ErrText
+			}
+		}
+		rr.resp = c12MakeResp(like, rr.keyID, rr.nonce, rr.errText, rr.keySender.TaskId.Value)
 		cr.replies = append(cr.replies, rr)
 		cr.byPtr[rr.resp] = rr
 		todo = append(todo, rr)
@@ -864,7 +921,11 @@ func (cr *c12CaseRun) witness(focus *c12Cmd) interface{} {
 func c12BehMultiset(cs *c12CmdSpec) string {
 	var b []string
 	for _, ts := range cs.Targets {
-		b = append(b, ts.Beh)
+		if ts.Shared != "" {
+			b = append(b, ts.Beh+"=")
+		} else {
+			b = append(b, ts.Beh)
+		}
 	}
 	sort.Strings(b)
 	return strings.Join(b, ",")
@@ -990,6 +1051,9 @@ func c12Judge(c *vlib.Ctx, cr *c12CaseRun, caseID int64, boundOnly bool) (boundE
 				}
 				if rr.isErr {
 					okProbe = false
+					if got := e.Err(); got != nil && got.Error() != rr.errText {
+						viol("ALTER", "reply-error-text-changed", fmt.Sprintf("command %d target #%d: reply %s was sent with error %q and now reports %q", cm.idx, k, rr.nonce, rr.errText, got.Error()), cm)
+					}
 				}
 				if cm.probe == 0 {
 					c.Count("entries_own_reply", 1)
@@ -1043,6 +1107,27 @@ func c12Judge(c *vlib.Ctx, cr *c12CaseRun, caseID int64, boundOnly bool) (boundE
 					viol("LOST", "in-time-reply-reported-as-error", fmt.Sprintf("command %d target #%d %s: a reply of that target was accepted by ProcessResponse (call returned) before send+timeout, yet the entry is the error %q",
 						cm.idx, k, st.tgt.TaskId.Value, txt), cm)
 				}
+			}
+		}
+		// ---- the public surface core/task uses to tell failed targets from the others:
+		// IsMultiResponse(), then Errors() (configureTasks, transitionTasks) or Err() (TriggerHooks, single results)
+		if structural == "" {
+			failed := map[c12Target]string{}
+			isReply := map[c12Target]bool{}
+			complete := true
+			for _, st := range cm.ts {
+				e, has := ents[st.tgt]
+				if !has || e == nil || c12IsNilPtr(e) {
+					complete = false
+					break
+				}
+				if err := e.Err(); err != nil {
+					failed[st.tgt] = err.Error()
+					isReply[st.tgt] = cr.byPtr[e] != nil
+				}
+			}
+			if complete {
+				c12Surface(c, cm, d.resp, failed, isReply, viol)
 			}
 		}
 		// ---- the result must not change after delivery
@@ -1150,6 +1235,119 @@ func c12Judge(c *vlib.Ctx, cr *c12CaseRun, caseID int64, boundOnly bool) (boundE
 	}
 	c.Interleaving(vlib.Hash(cr.spec.Idx, sb.String()))
 	return
+}
+
+// c12Surface: every failed target, and no other, must be visible as failed through
+// the accessors the callers use. failed: target -> error text of its own entry.
+func c12Surface(c *vlib.Ctx, cm *c12Cmd, res cc.MesosCommandResponse, failed map[c12Target]string, isReply map[c12Target]bool,
+	viol func(rule, class, detail string, focus *c12Cmd)) {
+	n := len(cm.ts)
+	texts := map[string]int{}
+	for _, txt := range failed {
+		texts[txt]++
+	}
+	shareClass := func(txt string) string {
+		if texts[txt] > 1 {
+			return "text-identical-to-another-failed-target"
+		}
+		return "text-unique"
+	}
+	if cm.probe == 0 {
+		groups := 0
+		for txt, cnt := range texts {
+			if cnt < 2 {
+				continue
+			}
+			groups++
+			ex, se := 0, 0
+			for t, x := range failed {
+				if x == txt {
+					if isReply[t] {
+						ex++
+					} else {
+						se++
+					}
+				}
+			}
+			c.Count("identical_text_failed_targets", int64(cnt))
+			switch {
+			case ex > 0 && se > 0:
+				c.Count("identical_text_groups_reply_and_send_error", 1)
+			case ex > 0:
+				c.Count("identical_text_groups_error_replies", 1)
+			default:
+				c.Count("identical_text_groups_send_errors", 1)
+			}
+		}
+		if groups > 0 {
+			c.Count("commands_with_identical_error_texts", 1)
+		}
+		if groups > 1 {
+			c.Count("commands_with_two_identical_text_groups", 1)
+		}
+	}
+	multi := res.IsMultiResponse()
+	if n >= 2 && !multi {
+		viol("SURFACE", "ismultiresponse-false-for-multi-target-result", fmt.Sprintf("command %d: the result of a %d-target command says IsMultiResponse()==false, callers will read Err() of the header only", cm.idx, n), cm)
+	}
+	errTxt := ""
+	if err := res.Err(); err != nil {
+		errTxt = err.Error()
+	}
+	blank := len(strings.TrimSpace(errTxt)) == 0 // the test the callers apply
+	if !multi {
+		if n == 1 {
+			if cm.probe == 0 {
+				c.Count("surface_single_results_checked", 1)
+			}
+			if len(failed) == 1 && blank {
+				viol("SURFACE", "err-blank-although-target-failed", fmt.Sprintf("command %d: single result, the target failed but Err() is blank", cm.idx), cm)
+			}
+			if len(failed) == 0 && !blank {
+				viol("SURFACE", "err-set-although-target-succeeded", fmt.Sprintf("command %d: single result, the target succeeded but Err() is %q", cm.idx, errTxt), cm)
+			}
+		}
+		return
+	}
+	if cm.probe == 0 {
+		c.Count("surface_multi_results_checked", 1)
+		c.Count("surface_failed_targets", int64(len(failed)))
+		if len(failed) > 0 {
+			c.Count("surface_multi_results_with_failures", 1)
+		}
+	}
+	em := res.Errors()
+	for k, st := range cm.ts {
+		txt, isFailed := failed[st.tgt]
+		ee, listed := em[st.tgt]
+		switch {
+		case isFailed && (!listed || ee == nil):
+			viol("SURFACE", "errors-map-omits-failed-target/"+shareClass(txt), fmt.Sprintf("command %d target #%d %s failed with %q (%d failed target(s) of this command carry exactly this text) but Errors() has no entry for it: %d failed targets, %d entries in Errors()",
+				cm.idx, k, st.tgt.TaskId.Value, txt, texts[txt], len(failed), len(em)), cm)
+		case isFailed && ee.Error() != txt:
+			viol("SURFACE", "errors-map-holds-another-error", fmt.Sprintf("command %d target #%d %s failed with %q but Errors() reports %q for it", cm.idx, k, st.tgt.TaskId.Value, txt, ee.Error()), cm)
+		case !isFailed && listed:
+			viol("SURFACE", "errors-map-lists-successful-target", fmt.Sprintf("command %d target #%d %s answered without error but Errors() lists it with %v", cm.idx, k, st.tgt.TaskId.Value, ee), cm)
+		}
+		mark := "[task " + st.tgt.TaskId.Value + "] "
+		if isFailed && !strings.Contains(errTxt, mark) {
+			viol("SURFACE", "err-omits-failed-target/"+shareClass(txt), fmt.Sprintf("command %d target #%d %s failed with %q but Err() does not name it: %q", cm.idx, k, st.tgt.TaskId.Value, txt, errTxt), cm)
+		}
+		if !isFailed && strings.Contains(errTxt, mark) {
+			viol("SURFACE", "err-names-successful-target", fmt.Sprintf("command %d target #%d %s answered without error but Err() names it: %q", cm.idx, k, st.tgt.TaskId.Value, errTxt), cm)
+		}
+	}
+	for t := range em {
+		if _, ok := cm.tIndex[t]; !ok {
+			viol("SURFACE", "errors-map-lists-non-target", fmt.Sprintf("command %d: Errors() has an entry for %s which is not one of its targets", cm.idx, t.TaskId.Value), cm)
+		}
+	}
+	if len(failed) > 0 && blank {
+		viol("SURFACE", "err-blank-although-targets-failed", fmt.Sprintf("command %d: %d targets failed but Err() is blank", cm.idx, len(failed)), cm)
+	}
+	if len(failed) == 0 && !blank {
+		viol("SURFACE", "err-set-although-all-targets-succeeded", fmt.Sprintf("command %d: every target answered without error but Err() is %q", cm.idx, errTxt), cm)
+	}
 }
 
 // ---------------------------------------------------------------- driver
